@@ -312,6 +312,14 @@ def check_constructor_kwargs(spec, seed, obs):
             if name and name not in dir(cls) and name.isidentifier():
                 cands.append((name, None))
                 cands.append((name, 'v'))
+        # names of internal state (slots) are not options or content
+        # sections either
+        for k in cls.__mro__:
+            sl = k.__dict__.get('__slots__', ())
+            for name in ([sl] if isinstance(sl, str) else sl):
+                if not name.startswith('__'):
+                    cands.append((name, 'v'))
+                    cands.append((name, []))
         for attr, v in cands:
             before = treesnap.snapshot(tree)
             exc = None
@@ -393,7 +401,14 @@ def perturb(value):
 def check_equality(spec, seed, obs, other_tree=None):
     rng = random.Random(seed)
     a = trees.build(spec, random.Random(seed))
-    b = trees.build(spec, random.Random(seed + 1))
+    if seed % 4 == 0:
+        # the same shape reached differently: built in the other order,
+        # then its public lists reversed in place
+        b = trees.build(trees.reversed_spec(spec), random.Random(seed + 1))
+        trees.reverse_in_place(b)
+        obs.count('equal_pairs_one_with_lists_edited_in_place')
+    else:
+        b = trees.build(spec, random.Random(seed + 1))
     case = {'spec': spec, 'build_seed': seed}
     obs.case(('eq', seed), nontrivial=False)
     obs.count('equal_pairs')
